@@ -241,3 +241,75 @@ func verifH_C24_xfcc_noise() {
 	}
 	verifAssert(len(els) == want, "one element per non-blank top-level part of the reference split")
 }
+
+// reference: split a DN at commas that no backslash escape has consumed (escapes
+// pair up left to right: in `\\,` the comma is a separator), trim, and take the
+// first component that is "CN=" (any case) plus at least one character
+func verifC24RefCN(s string) string {
+	var parts []string
+	cur := ""
+	for i := 0; i < len(s); {
+		switch {
+		case s[i] == '\\' && i+1 < len(s) && s[i+1] != '\n':
+			cur += s[i : i+2]
+			i += 2
+		case s[i] != ',':
+			cur += s[i : i+1]
+			i++
+		default:
+			if cur != "" {
+				parts = append(parts, cur)
+			}
+			cur = ""
+			i++
+		}
+	}
+	if cur != "" {
+		parts = append(parts, cur)
+	}
+	for _, p := range parts {
+		lo, hi := 0, len(p)
+		for lo < hi && verifC24DNSpace(p[lo]) {
+			lo++
+		}
+		for hi > lo && verifC24DNSpace(p[hi-1]) {
+			hi--
+		}
+		p = p[lo:hi]
+		if len(p) > 3 && (p[0] == 'C' || p[0] == 'c') && (p[1] == 'N' || p[1] == 'n') && p[2] == '=' {
+			return p[3:]
+		}
+	}
+	return ""
+}
+
+func verifC24DNSpace(c byte) bool {
+	return c == ' ' || c == '\t' || c == '\n' || c == '\v' || c == '\f' || c == '\r'
+}
+
+// extractCN: the principal is the CN of the subject, with escaped commas kept
+// inside a component and unescaped ones separating components.
+//
+//verif:bound subject = head + mid + tail with head in {"", "O=a", "O=a,", "CN=a", "cn=a"}, tail in {"", "a", "CN=b", ",CN=b", " CN=b "} and mid EVERY string of length 0..3 (thorough 0..4) over {backslash, comma, space, a}: every arrangement of escapes (single, paired, odd and even runs before a comma, trailing), separators, empty components and blanks between two components; compared with an independently written left-to-right escape-pairing splitter
+func verifH_C24_extract_cn() {
+	max := 3
+	if verifTier() == 1 {
+		max = 4
+	}
+	n := verifChoice("len", max+1)
+	mid := verifNondetString("mid", n)
+	for i := 0; i < len(mid); i++ {
+		c := mid[i]
+		verifAssume(c == '\\' || c == ',' || c == ' ' || c == 'a')
+	}
+	head := []string{"", "O=a", "O=a,", "CN=a", "cn=a"}[verifChoice("head", 5)]
+	tail := []string{"", "a", "CN=b", ",CN=b", " CN=b "}[verifChoice("tail", 5)]
+	s := head + mid + tail
+	got := extractCN(s)
+	want := verifC24RefCN(s)
+	verifReach("cn-extracted")
+	verifAssert(got == want, "the CN is that of the first CN component, components being separated by exactly the commas no escape has consumed")
+	if want != "" {
+		verifReach("cn-found")
+	}
+}
